@@ -649,7 +649,7 @@ func runDisputeHistory(t *testing.T, seed int64) (string, map[string]int, string
 	fromBond := proposer == 1 && (bondOrigins || r.Intn(2) == 0)
 	first := full
 	if r.Intn(3) == 0 {
-		first = bquo(full, bi(int64(2+r.Intn(3))))
+		first = pick(r, bquo(full, bi(int64(2+r.Intn(3)))), bquo(bmul(full, bi(96)), bi(100)), bsub(full, bi(1)), bquo(bmul(full, bi(95)), bi(100)))
 	}
 	rounds := pick(r, 1, 1, 2, 3)
 	choice := pick(r, disputetypes.VoteEnum_VOTE_AGAINST, disputetypes.VoteEnum_VOTE_AGAINST, disputetypes.VoteEnum_VOTE_SUPPORT, disputetypes.VoteEnum_VOTE_INVALID)
@@ -699,6 +699,7 @@ func runDisputeHistory(t *testing.T, seed int64) (string, map[string]int, string
 					roles := w.backersOf(rep)
 					nextParams = []*big.Int{bi(0)}
 					do("AddFeeToDispute", payer, roles, func(ctx sdk.Context) error {
+						w.touched = id
 						_, err := w.disputeMS.AddFeeToDispute(ctx, &disputetypes.MsgAddFeeToDispute{Creator: w.accts[payer].String(), DisputeId: id, Amount: w.coin(bsub(full, first)), PayFromBond: false})
 						return err
 					})
